@@ -158,6 +158,16 @@ def predicates(ctx, cfg, env, td, B):
                     p.check("preset_backhaul", bool((bh == 0).all()), f"backhaul demands present although preset {cfg['preset']} has none")
                 p.check("preset_limit", bool((has_l == fl["L"]).all()), f"distance limit does not match preset {cfg['preset']}")
                 p.check("preset_tw", bool((has_tw == fl["TW"]).all()), f"time windows do not match preset {cfg['preset']}")
+            elif cfg.get("preset") in ("single_feat", "single_feat_otw"):
+                # documented: CVRP, OVRP, VRPB, VRPL, VRPTW (+ OVRPTW for single_feat_otw) - never two features otherwise
+                feats = torch.stack([td["open_route"].reshape(B).bool(), has_tw, has_l, (bh > 0).any(-1)], 1)  # O, TW, L, B
+                nf = feats.sum(1)
+                otw = feats[:, 0] & feats[:, 1] & ~feats[:, 2] & ~feats[:, 3]
+                okv = (nf <= 1) | (otw if cfg["preset"] == "single_feat_otw" else torch.zeros(B, dtype=torch.bool))
+                bad = torch.nonzero(~okv).flatten().tolist()
+                p.check("preset_variant_set", not bad, f"preset {cfg['preset']} emitted an instance with features (O, TW, L, B) = {feats[bad[0]].int().tolist() if bad else None}")
+                ctx.count("c18_single_feat_instances", B)
+                ctx.count("c18_single_feat_otw_seen", int(otw.sum()))
     elif name in ("fjsp", "jssp"):
         if need("proc_times", "start_op_per_job", "end_op_per_job", "pad_mask"):
             pt, pad = td["proc_times"], td["pad_mask"]
